@@ -125,6 +125,16 @@ def damage_cases(ctx, recs, paired_recs=None):
     cases.append(("undamaged", data, None, True, False))
     cases.append(("empty file", b"", None, True, False))
     cases.append(("final newline missing", data[:-1], None, True, False))
+    # well-formed input with one record that is exactly as long as the read buffer / one byte longer (the reader
+    # may refuse it, but must not stop quietly): the buffer size is part of the case
+    for bsz, extra in ((200, 0), (200, 1), (130, 0)):
+        target = bsz + extra
+        nm = "r2 extra" if (target - 14) % 2 == 0 else "r2 extras"
+        L = (target - 6 - len(nm)) // 2
+        big_rec = (nm, "ACGT" * (L // 4) + "A" * (L % 4), "I" * L)
+        rs = list(recs[:2]) + [big_rec] + list(recs[3:])
+        assert len(fastq_bytes([big_rec])) == target, (len(fastq_bytes([big_rec])), target)
+        cases.append((f"well-formed: one record of {target} bytes, bufsize={bsz}", fastq_bytes(rs), None, True, False))
     # paired faults
     if paired_recs is not None:
         d2 = fastq_bytes(paired_recs)
@@ -138,6 +148,10 @@ def damage_cases(ctx, recs, paired_recs=None):
         cases.append((f"paired: mate {k} renamed", data, ("\n".join(bad) + "\n").encode(), True, False))
         cases.append(("paired: R2 truncated mid-record", data, d2[: len(d2) - 7], True, False))
         cases.append(("paired: R2 empty", data, b"", True, False))
+        # one file ends several records (at least one chunk of a small buffer) before the other
+        h = max(1, len(paired_recs) // 2)
+        cases.append(("paired: R2 holds only the first half", data, ("\n".join(l2[: 4 * h]) + "\n").encode(), True, False))
+        cases.append(("paired: R1 holds only the first half, cut inside a record", ("\n".join(lines[: 4 * h + 2]) + "\n").encode(), d2, True, False))
         # well-formed input in which one R1 is used up by -u 2, with the per-read text files switched on
         # ("exit status 0 ... and then the output contains every record", whatever else the run writes)
         short = list(recs)
@@ -241,6 +255,8 @@ def run(ctx):
                 inputs["in2.fastq"] = d2
             for cores in ((1, 2, 3) if not ctx.quick else (1, rng.choice((2, 3)))):
                 bs = rng.choice((130, 200, 100000)) if "big" not in desc else rng.choice((2000, 5000))
+                if "bufsize=" in desc:
+                    bs = int(desc.split("bufsize=")[1])
                 seed = rng.randrange(10**9) if cores > 1 else 0
                 w = rng.choice((None, {"M": 0.05}, {"R": 0.05}, {"W0": 0.03}, {"M": 5.0})) if cores > 1 else None
                 e, log, deadlock, res = execute(ctx, desc, recs, recs2, d1, d2, container_ok, gz, cores, bs, seed, w)
